@@ -28,7 +28,7 @@ Inductive hstat := HCompleted | HAbandoned | HPanicked.
 Inductive cbstat := CbOk | CbFail | CbPanicked | CbCancelled.
 Inductive tkind := TInterval | TIntervalWith | TDelayedSend | TDelayedExec.
 Inductive endk := EndReturned | EndPanicked | EndCancelled.
-Inductive bwhat := BPubBegin | BHolds | BTarget | BPubEnd | BSub | BUnsub.
+Inductive bwhat := BPubBegin | BHolds | BTarget | BPubEnd | BSub | BUnsub | BTopic.
 Inductive topk := TPublish | TSubscribe | TUnsubscribe.
 Inductive regk := RgFrom | RgSetup | RgRegister | RgReplace | RgUnregister | RgTryFrom | RgAlready.
 
@@ -125,7 +125,7 @@ Definition dec_tkind (n : nat) : option tkind :=
 Definition dec_bwhat (n : nat) : option bwhat :=
   match n with
   | 0 => Some BPubBegin | 1 => Some BHolds | 2 => Some BTarget | 3 => Some BPubEnd
-  | 4 => Some BSub | 5 => Some BUnsub | _ => None
+  | 4 => Some BSub | 5 => Some BUnsub | 6 => Some BTopic | _ => None
   end.
 Definition dec_topk (n : nat) : option topk :=
   match n with 0 => Some TPublish | 1 => Some TSubscribe | 2 => Some TUnsubscribe | _ => None end.
